@@ -35,7 +35,7 @@ def build_requests(plan, abstract_backend=False, force_external=None):
                    'loops': {str(k): v for k, v in it.loops.items()},
                    'closures': {str(k): v for k, v in it.closures.items()},
                    'proofs': [p if isinstance(p, dict) else {'at': p[0], 'text': p[1]} for p in it.proofs],
-                   'attrs': it.attrs, 'generics_add': it.generics_add, 'where_add': it.where_add}
+                   'attrs': it.attrs, 'generics_add': it.generics_add, 'where_add': it.where_add, 'sig_pat': it.sig_pat}
             if it.decreases:
                 ann['decreases'] = it.decreases
             r = {'id': i, 'kind': 'fn', 'file': it.file, 'locator': it.locator, 'rules': it.rules,
